@@ -72,8 +72,17 @@ pub fn run_c16(cx: &mut Cx) {
     let opts = StepOpts { eintr: if cx.ch.chance("eintr", 1, 6) { 1 } else { 0 }, short_reads: if cx.ch.chance("short", 1, 6) { 1 } else { 0 }, ..Default::default() };
     let (g1, h1, n1, a1, b1, x1) = (g.clone(), h.clone(), n.clone(), a.clone(), b.clone(), x.clone());
     let (a_out, b_out) = (a.clone(), b.clone());
+    // commitment randomness: the library's own size (ln bits), or anywhere in the range Boudot's
+    // prover is written for, (-2^40 n, 2^40 n) -- the field is public and the prover's re-draw
+    // loops only ever iterate for the large values
+    let r_kind = cx.ch.weighted("commitment_randomness", &[4, 1, 1, 1]);
+    if r_kind != 0 { cx.count("probe.commitment_randomness_from_the_full_range"); }
+    let r_big: Integer = {
+        let mag = Integer::from_digits(&zksim_core::prng::bytes_for(seed, b"big-r", 0, (LN as usize + 40) / 8), rug::integer::Order::MsfBe) % ((Integer::from(1) << 40u32) * &n - 1u32);
+        match r_kind { 1 => mag, 2 => -mag, _ => ((Integer::from(1) << 40u32) * &n - 2u32) * (if seed & 1 == 0 { 1 } else { -1 }) }
+    };
     cx.step(prover, "commit+prove", opts, move || {
-        let r = zkryptium::utils::random::random_bits(LN);
+        let r = if r_kind == 0 { zkryptium::utils::random::random_bits(LN) } else { r_big };
         let e = (pow(&g1, &x1, &n1) * pow(&h1, &r, &n1)) % &n1;
         let c = CL03Commitment { value: e.clone(), randomness: r.clone() };
         let p = Boudot2000RangeProof::prove::<H>(&x1, &c, &g1, &h1, &n1, &a1, &b1);
@@ -90,14 +99,15 @@ pub fn run_c16(cx: &mut Cx) {
         { let mut q = f.clone(); q.g = key.cpk.g_bases[1].clone(); deliver(cx, verifier, q, "misroute_base_g".into(), false); }
         { let mut q = f.clone(); q.h = key.cpk2.h.clone(); deliver(cx, verifier, q, "misroute_base_h".into(), false); }
         { let mut q = f.clone(); std::mem::swap(&mut q.g, &mut q.h); deliver(cx, verifier, q, "bases_swapped".into(), false); }
-        { let other = pool_key((key.idx + 1) % POOL_SIZE); let mut q = f.clone(); q.n = other.pk.N.clone(); deliver(cx, verifier, q, "misroute_modulus".into(), false); }
+        if let Some(other) = other_pool_key(key.idx) { let mut q = f.clone(); q.n = other.pk.N.clone(); deliver(cx, verifier, q, "misroute_modulus".into(), false); }
+        { let mut q = f.clone(); q.n += 2; deliver(cx, verifier, q, "modulus:+2".into(), false); }
         { let mut q = f.clone(); q.e_expected = (Integer::from(&e * &g)) % &n; deliver(cx, verifier, q, "other_commitment_at_verifier".into(), false); }
         // every integer leaf of the proof
         let v: Value = serde_json::from_str(&proof_json).unwrap();
         let ls = leaves(&v);
         cx.add("n.proof_leaves", ls.len() as u64);
         for k in 0..ls.len() {
-            let ps = perturbations(&ls, k);
+            let ps = perturbations_mod(&ls, k, &n);
             let picks: Vec<usize> = if cx.thorough { (0..ps.len()).collect() } else { vec![cx.ch.choose("perturbation", ps.len() as u64) as usize] };
             for pick in picks {
                 let (pname, edits) = &ps[pick];
